@@ -538,6 +538,7 @@ func taskScheduleHandler() {
 			}
 		}
 
+		verifPoint("sched.arm", nil)
 		select {
 		case <-shutdownSignal:
 			return
